@@ -31,6 +31,8 @@ REGISTRY = {
     "C17": ("vverif.checks_arrays", "check_c17"),
     "C18": ("vverif.checks_arrays", "check_c18"),
     "C19": ("vverif.checks_arrays", "check_c19"),
+    "C07": ("vverif.checks_backends", "check_c07"),
+    "C08": ("vverif.checks_backends", "check_c08"),
     "C09": ("vverif.checks_laws", "check_c09"),
     "C10": ("vverif.checks_laws", "check_c10"),
     "C11": ("vverif.checks_laws", "check_c11"),
